@@ -6,7 +6,8 @@
 // signed invoke transaction in its own block with a generated timestamp.  After every
 // state-changing step `verifyToken` is pre-executed against the committed state for every
 // (contract, caller, function) with the caller's right key and for a sample of key-control
-// variants, and its answer must equal the model's answer in both directions.
+// variants, and its answer must equal the model's answer in both directions.  Every second
+// history also plays one scripted multi-step scenario (scenario.go) inside its random walk.
 package main
 
 import (
@@ -296,14 +297,16 @@ func (h *hist) answer(c *cmodel, caller, fn string, keyNo uint64, signers []*txg
 	return roleAnswer(c, caller, fn, now)
 }
 
+// the most telling reason of a negative answer is reported
+var whyRank = map[string]int{"no-role": 0, "role-without-fn": 1, "withdrawn-delegation": 2, "withdrawn-delegation:the-contract-refused-the-withdraw": 2, "expired-delegation": 3, "expired-delegation@time==expiry+1": 4}
+
 // roleAnswer is the role half of the statement (key control assumed): a role with fn that the
 // identity holds directly, or through any delegation that is unexpired (now <= expiry) and was
 // not withdrawn by its delegator.
 func roleAnswer(c *cmodel, caller, fn string, now uint32) (bool, string) {
-	rank := map[string]int{"no-role": 0, "role-without-fn": 1, "withdrawn-delegation": 2, "withdrawn-delegation:the-contract-refused-the-withdraw": 2, "expired-delegation": 3, "expired-delegation@time==expiry+1": 4}
 	why := "no-role"
 	up := func(w string) {
-		if rank[w] > rank[why] {
+		if whyRank[w] > whyRank[why] {
 			why = w
 		}
 	}
